@@ -97,7 +97,7 @@ def handle (cfg : Cfg) (line : String) : String :=
         " short=" ++ toString st.short
       if st.halt == .none && !st.short then
         let e := c.encode cfg st.obj
-        r ++ " ehalt=" ++ haltStr e.halt ++ " out=" ++ toHex e.out ++ " obj " ++ dumpObj c e.obj
+        r ++ " ehalt=" ++ haltStr e.halt ++ " out=" ++ toHex e.out ++ " dec " ++ dumpObj c st.obj ++ " obj " ++ dumpObj c e.obj
       else r ++ " obj " ++ dumpObj c st.obj
     | _, _ => "bad-request"
   | ["tables"] =>
